@@ -2,10 +2,13 @@
 # Builds the verification machinery from files on disk only (offline).
 set -euo pipefail
 cd "$(dirname "$0")"
+V="$PWD"
+R="${VERIF_REPO:-/repo}"
 export GOFLAGS=-mod=mod GOPROXY=off
+unset GOTOOLCHAIN GOSUMDB || true
 mkdir -p build evidence replays
-./stubs/libflux/mkstub.sh "$PWD/build/libflux" >/dev/null
+VERIF_REPO="$R" ./stubs/libflux/mkstub.sh "$V/build/libflux" >/dev/null
 ( cd engine && GOTOOLCHAIN=local go1.26.8 build -o ../build/gosym ./cmd/gosym )
 # warm the build cache for the packages the checks load and replay against
-( cd /repo && CGO_LDFLAGS="-O2 -g -L/verif/build/libflux" PKG_CONFIG_PATH=/verif/build/libflux go build . ./alert ./edge ./models ./pipeline ./services/alert ./services/storage ./services/task_store ./udf ./udf/agent ./tick/... ./auth ./services/httpd >/dev/null 2>&1 || true )
+( cd "$R" && CGO_LDFLAGS="-O2 -g -L$V/build/libflux" PKG_CONFIG_PATH="$V/build/libflux" go build . ./alert ./edge ./models ./pipeline ./services/alert ./services/storage ./services/task_store ./udf ./udf/agent ./tick/... ./auth ./services/httpd >/dev/null 2>&1 || true )
 echo "setup ok"
